@@ -193,18 +193,18 @@ func c16ParseRaces(stderr string) []c16RaceReport {
 
 const (
 	c16OpenapiPkg = "sigs.k8s.io/kustomize/kyaml/openapi."
-	c16KnownRace  = "C16/race-IsNamespaceScoped-read"
 	c16ReinitRace = "C16/race-unlocked-read-vs-reinit-after-explicit-version"
 	c16MapFatal   = "C16/fatal-concurrent-map-access"
 )
 
-// c16RaceClass maps exactly the confirmed shapes to their finding classes; everything else keeps a class
-// that names the function pair (unlisted => VIOLATION).
+// c16RaceClass maps exactly the confirmed shape to its finding class; everything else keeps a class that names the
+// function pair (unlisted => VIOLATION).
 //
-//	known 1: unlocked read in IsNamespaceScoped vs write under initSchema (findNamespaceability), any round;
-//	known 2 (only rounds that contain a tree spelling out `openapi: version: <default>`, which makes SetSchema clear
-//	         schemaInit so that another build re-runs initSchema): the same IsNamespaceScoped read, or the unlocked
-//	         reads that follow initSchema() (SchemaForResourceType, rootSchema users) vs the writes of the re-parse.
+//	known (only rounds that contain a tree spelling out `openapi: version: <default>`, which makes SetSchema clear
+//	       schemaInit so that another build re-runs initSchema): the unlocked reads that follow initSchema()
+//	       (SchemaForResourceType, rootSchema users) vs the writes of the re-parse.
+//	The former finding F9 (unlocked read in IsNamespaceScoped vs findNamespaceability) was repaired in /repo db2770f:
+//	that pair is no longer listed and is a VIOLATION if it ever comes back.
 func c16RaceClass(rep c16RaceReport, explicitVersion bool) string {
 	r, w := "", ""
 	for _, f := range rep.Funcs {
@@ -217,12 +217,9 @@ func c16RaceClass(rep c16RaceReport, explicitVersion bool) string {
 		}
 	}
 	initWrites := map[string]bool{c16OpenapiPkg + "findNamespaceability": true, c16OpenapiPkg + "AddDefinitions": true}
-	if r == c16OpenapiPkg+"IsNamespaceScoped" && w == c16OpenapiPkg+"findNamespaceability" {
-		return c16KnownRace
-	}
 	if explicitVersion && initWrites[w] && strings.HasPrefix(rep.Funcs[0], "read:") != strings.HasPrefix(rep.Funcs[1], "read:") {
 		switch strings.TrimPrefix(r, c16OpenapiPkg) {
-		case "SchemaForResourceType", "IsNamespaceScoped", "resolve", "Resolve", "rootSchema", "Schema",
+		case "SchemaForResourceType", "resolve", "Resolve", "rootSchema", "Schema",
 			"(*ResourceSchema).Field", "(*ResourceSchema).Elements", "(*ResourceSchema).Lookup":
 			return c16ReinitRace
 		}
@@ -349,8 +346,8 @@ func c16JobOf(spec c16RaceSpec) c16RaceJob {
 func c16GenRaceSpec(g *Rng, rounds int, explicit bool, tag string) c16RaceSpec {
 	spec := c16RaceSpec{}
 	for i := 0; i < rounds; i++ {
-		n := 2 + g.Intn(15)
-		rd := c16RaceSpecRound{GoMaxProcs: []int{2, 4, 8, 16}[g.Intn(4)], Repeat: 1 + g.Intn(2)}
+		n := 4 + g.Intn(13)
+		rd := c16RaceSpecRound{GoMaxProcs: []int{4, 8, 16}[g.Intn(3)], Repeat: 2 + g.Intn(2)}
 		switch i {
 		case 0:
 			n = 6 + g.Intn(5)
@@ -360,6 +357,12 @@ func c16GenRaceSpec(g *Rng, rounds int, explicit bool, tag string) c16RaceSpec {
 			n = 3 + g.Intn(4)
 			rd.GoMaxProcs = []int{4, 8, 16}[g.Intn(3)]
 			rd.Repeat = 1
+		case 2:
+			// many medium trees, each built three times in a row: later iterations call SetSchema again while other
+			// builds are past their own initSchema() (the shape that exposes re-initialisation)
+			n = 12 + g.Intn(5)
+			rd.GoMaxProcs = 16
+			rd.Repeat = 3
 		}
 		for k := 0; k < n; k++ {
 			size := g.Intn(8)
@@ -368,6 +371,8 @@ func c16GenRaceSpec(g *Rng, rounds int, explicit bool, tag string) c16RaceSpec {
 				size = g.Intn(12)
 			case i == 1 && k > 0:
 				size = 20 + g.Intn(30)
+			case i == 2:
+				size = 3 + g.Intn(4)
 			case i > 1 && g.Chance(30):
 				size = 10 + g.Intn(25)
 			}
@@ -471,7 +476,13 @@ func c16RaceSearch(r *Run, g *Rng, procs int, tier string) error {
 	r.Count("race_corpus_jobs", fmt.Sprint(len(specs)))
 	for p := 0; p < procs; p++ {
 		// the race detector reports a given pair of stacks once per process: many short processes
-		specs = append(specs, c16GenRaceSpec(g.Fork(), 2, p%3 == 2, fmt.Sprintf("p%d", p)))
+		// processes whose trees spell out the default version get a third, random-mix round with repetitions: the
+		// re-initialisation race needs builds that are past their own initSchema() while another one re-arms it
+		nr := 2
+		if p%3 == 2 {
+			nr = 3
+		}
+		specs = append(specs, c16GenRaceSpec(g.Fork(), nr, p%3 == 2, fmt.Sprintf("p%d", p)))
 	}
 	for _, spec := range specs {
 		job := c16JobOf(spec)
